@@ -63,6 +63,7 @@ pub fn set_op<K: SimK, V: SimV, const C: usize>(s: &mut Set<K, C>, cx: &mut Cx<K
         Op::SDrain { take, end, .. } => {
             let mut sess = Session::new("Set::drain", pre, (true, false));
             let order = twin_order_set(s, pre, true);
+            let mut drop_panic = None;
             {
                 let d = win!(aw, s.drain());
                 let rest = consume(d, cx, &mut sess, *take, *end, |x: &K| (x.peek().id, 0), |cx, x| cx.ret_k("Set::drain", x), (K::ANON, true), order.as_deref().map(|o| (o, &(|x: &K| (x.peek().class, 0u64)) as &dyn Fn(&K) -> (u32, u64))));
@@ -70,10 +71,20 @@ pub fn set_op<K: SimK, V: SimV, const C: usize>(s: &mut Set<K, C>, cx: &mut Cx<K
                     if *end == End::Forget {
                         forget_remaining(cx, pre, &sess, false);
                         std::mem::forget(d);
-                    } else {
-                        win!(aw, drop(d));
+                    } else if let Err(p) = std::panic::catch_unwind(std::panic::AssertUnwindSafe(move || win!(aw, drop(d)))) {
+                        drop_panic = Some(p);
                     }
                 }
+            }
+            if let Some(p) = drop_panic {
+                // (see Op::Drain) the set must be empty although a destructor panicked inside the drain's drop
+                crate::alloc::arm(false);
+                cx.probe("drain_drop_panicked");
+                let left = crate::world::observing(|| std::panic::catch_unwind(std::panic::AssertUnwindSafe(|| snap_set(s).len())).unwrap_or(usize::MAX));
+                if s.len() != 0 || left != 0 || !s.is_empty() {
+                    violate("drain-not-empty-after-panic", format!("Set::drain() (taken {} of {}) was dropped and an element destructor panicked inside that drop: afterwards len()={} and iteration yields {} elements", sess.taken, pre.len(), s.len(), left));
+                }
+                std::panic::resume_unwind(p);
             }
             let left = snap_set(s);
             if s.len() != 0 || !left.is_empty() || !s.is_empty() {
